@@ -245,14 +245,18 @@ func execPre(line string, oracle bool) string {
 type base struct {
 	n, qc, ft, ph, k int
 	tb               int32
+	d                int // 1: the last transaction repeats the one before it (the proposer signed such a body)
 }
 
 func parseBase(m map[string]string) base {
-	return base{n: int(atoi(m["n"])), qc: int(atoi(m["qc"])), ft: int(atoi(m["ft"])), tb: int32(atoi(m["tb"])), ph: int(atoi(m["ph"])), k: int(atoi(m["k"]))}
+	if m["d"] == "" {
+		m["d"] = "0"
+	}
+	return base{n: int(atoi(m["n"])), qc: int(atoi(m["qc"])), ft: int(atoi(m["ft"])), tb: int32(atoi(m["tb"])), ph: int(atoi(m["ph"])), k: int(atoi(m["k"])), d: int(atoi(m["d"]))}
 }
 
 func (p base) String() string {
-	return fmt.Sprintf("n=%d qc=%d ft=%d tb=%d ph=%d k=%d", p.n, p.qc, p.ft, p.tb, p.ph, p.k)
+	return fmt.Sprintf("n=%d qc=%d ft=%d tb=%d ph=%d k=%d d=%d", p.n, p.qc, p.ft, p.tb, p.ph, p.k, p.d)
 }
 
 func stdJustify(signs int) *pb.QuorumCert {
@@ -286,7 +290,11 @@ func formatBase(p base) (*pb.InternalBlock, error) {
 		}
 	}
 	a := acct(p.k)
-	return l.FormatMinerBlock(mkTxs(p.n, "b"), []byte(a.Address), a.Pri, 1700000000, 3, 7, pre, p.tb, big.NewInt(0), qc, failed, 5)
+	txs := mkTxs(p.n, "b")
+	if p.d == 1 && p.n >= 2 {
+		txs[p.n-1] = txs[p.n-2]
+	}
+	return l.FormatMinerBlock(txs, []byte(a.Address), a.Pri, 1700000000, 3, 7, pre, p.tb, big.NewInt(0), qc, failed, 5)
 }
 
 func flipLast(b []byte) ([]byte, bool) {
@@ -618,10 +626,14 @@ func execVb(line string, oracle bool) string {
 	if err != nil {
 		return "format-error"
 	}
+	orig := b
 	b = proto.Clone(b).(*pb.InternalBlock)
 	class := mutate(b, p, m["m"])
 	if class == "" {
 		return "n/a"
+	}
+	if class == "reject" && proto.Equal(orig, b) {
+		class = "noop" // e.g. swapping two equal transactions: nothing changed, nothing to reject
 	}
 	ok, _ := getLedger().VerifyBlock(b, "xv")
 	res := "reject"
@@ -651,6 +663,8 @@ func execVb(line string, oracle bool) string {
 		}
 	case "obs":
 		out.Count("observation:" + name + ":" + res)
+	case "noop":
+		out.Count("noop-mutation:" + res)
 	}
 	return res
 }
@@ -827,6 +841,9 @@ func genC08(tier string, rng *xvlib.Rng, run func(string, bool)) {
 			p := base{n: n, qc: []int{-1, 0, 1, 3}[rng.Intn(4)], ft: rng.Intn(4), tb: []int32{0, 0, 5, -3, 1}[rng.Intn(5)], ph: 1, k: rng.Intn(3)}
 			if c == 0 {
 				p.qc, p.ft = 3, 2 // every mutation applicable at least once per n
+			}
+			if c == 1 && n >= 2 {
+				p.d = 1
 			}
 			for _, m := range mutationsFor(p, rng, n <= 9 || thorough) {
 				l := fmt.Sprintf("vb %s m=%s", p, m)
